@@ -140,22 +140,26 @@ class _CompConv:
 @contract(CCT4.rescale_fractions, props=['C10'], name='ConstructCompositionT4.rescale_fractions', status='B')
 class _Rescale:
     """Concentrations proportional to the atom fractions and summing to the cell density (15 significant digits)."""
-    scope = 'fraction lists of 1..3 entries from 5 spellings x 4 concentrations'
+    scope = ('fraction lists of 1..3 entries from 5 spellings x 4 concentrations x every pattern of repeated nuclide '
+             'names (a card may list a nuclide twice, e.g. with two library suffixes)')
 
     def bounded(tier):
         fr = ['1.0', '2', '0.25', '1e-3', '3.50']
         for n in (1, 2, 3):
             for combo in itertools.product(fr, repeat=n):
                 for conc in (1.0, 0.05, 6.022e-2, 123.456):
-                    yield {'fracs': combo, 'conc': conc}
+                    for names in set(itertools.product(('U235', 'U238', 'O16'), repeat=n)):
+                        if tier == 'quick' and n == 3 and conc != 0.05:
+                            continue
+                        yield {'fracs': combo, 'conc': conc, 'names': names}
 
-    def call(fracs, conc):
-        return CCT4.rescale_fractions([(f'X{k}', f) for k, f in enumerate(fracs)], conc)
+    def call(fracs, conc, names):
+        return CCT4.rescale_fractions(list(zip(names, fracs)), conc)
 
-    def ensures(result, fracs, conc):
+    def ensures(result, fracs, conc, names):
         vals = [float(v) for _, v in result]
         fs = [float(f) for f in fracs]
-        yield 'names-in-order', [n for n, _ in result] == [f'X{k}' for k in range(len(fracs))]
+        yield 'names-in-order', [n for n, _ in result] == list(names)
         yield 'sum-is-the-density', abs(sum(vals) - conc) <= 1e-12 * conc
         yield 'proportional', all(abs(v * sum(fs) - f * conc) <= 1e-12 * conc * sum(fs) for v, f in zip(vals, fs))
 
